@@ -375,6 +375,13 @@ def gen_program(r):
         src, dst, c = r.choice(PARTS[:4]), r.choice(['D', 'x%y', 'é']), r.choice(PARTS[:3])
         names += [src, dst, src + DELIM + c, dst + DELIM + c]
         prog += [['create', dst + DELIM + c], ['append', dst + DELIM + c], ['create', src + DELIM + c], ['rename', src, dst]]
+    if r.random() < 0.25:
+        # subscriptions are kept by name: white space at the ends and line breaks inside must survive (or the SUBSCRIBE be refused)
+        ws = [r.choice(['foo ', ' foo', 'n\nl', 'a\tb ', 'x\ry', 'foo'])for _ in range(2)]
+        names += ws + ['foo', 'n', 'l']
+        prog += [['create', 'foo'], ['create', 'n'], ['create', 'l']] + [['create', w] for w in ws] + [['subscribe', w] for w in ws] + [['lsub', '', '*']]
+        if r.random() < 0.5:
+            prog += [['unsubscribe', ws[0]], ['lsub', '', '*']]
     if r.random() < 0.5:
         # siblings whose names extend another name as a *string* but not as a hierarchy (foo / foobar / foo-old): a RENAME or
         # DELETE of the shorter one must leave them alone
